@@ -156,12 +156,11 @@ def run_instance(cid, inst_index, tier, seed=0, repo_src=None, native_trials=0, 
         # boxes) and side conditions that are assumed after having been recorded as obligations.
         nh = ctx.memo.get("first_index_hyp", len(ctx.hyps))
         core = [h for h, tg in zip(ctx.hyps[:nh], ctx.hyp_tags[:nh]) if tg != "branch" and not tg.startswith("after:")]
-        vac = vc.discharge(core, z3.BoolVal(False), timeout_ms=3000, portfolio=False, full=True)
-        if vac.status == "proved":
+        if vc.contradictory(core):
             res["checker_errors"].append({"where": f"{cid}[{label}] path {pi}", "trace": "vacuous: the assumptions of the contract are contradictory"})
             continue
         withbr = [h for h, tg in zip(ctx.hyps[:nh], ctx.hyp_tags[:nh]) if not tg.startswith("after:")]
-        if len(withbr) > len(core) and vc.discharge(withbr, z3.BoolVal(False), timeout_ms=3000, portfolio=False, full=True).status == "proved":
+        if len(withbr) > len(core) and vc.contradictory(withbr):
             continue  # infeasible path (its feasibility query had timed out)
         for ob in ctx.obls:
             nobl += 1
